@@ -52,11 +52,13 @@ const (
 var restName = [nRest]string{"fine", "ctype", "param", "accept"}
 
 const (
-	lvlAuthorize = iota // Context.Authorize on a route obtained from the real router
-	lvlHandler          // full APIHandler chain
+	lvlAuthorize      = iota // Context.Authorize on a route obtained from the real router
+	lvlHandler               // full handler chain
+	lvlAuthenticators        // RouteAuthenticators.Authenticate called directly on the route (no authorizer involved)
+	nLvl
 )
 
-var lvlName = [2]string{"authorize", "handler"}
+var lvlName = [nLvl]string{"authorize", "handler", "route-authenticators"}
 
 // how the requirement structure is declared
 const (
@@ -70,11 +72,34 @@ const (
 var declName = [nDecl]string{"op", "op-over-global-anon", "global", "global-overridden-empty"}
 
 const (
-	modeRaw  = iota // scripted runtime.AuthenticatorFunc reading X-Out-<scheme>
-	modeReal        // security.APIKeyAuthCtx / BasicAuthCtx / BearerAuthCtx finding real credentials
+	modeRaw          = iota // scripted runtime.AuthenticatorFunc reading X-Out-<scheme>
+	modeReal                // security.APIKeyAuthCtx(header) / BasicAuthCtx / BearerAuthCtx finding real credentials
+	modeRealPlain           // security.APIKeyAuth(header) / BasicAuth / BearerAuth (callbacks without context)
+	modeRealAlt             // security.APIKeyAuthCtx(query) / BasicAuthRealmCtx / BearerAuthCtx
+	modeRealAltPlain        // security.APIKeyAuth(query) / BasicAuthRealm / BearerAuth
+	modeWrapped             // security.HttpAuthenticator (k1, k2) / security.ScopedAuthenticator (k3) around the scripted decision
+	nMode
 )
 
-var modeName = [2]string{"raw", "real"}
+var modeName = [nMode]string{"raw", "real", "real-plain", "real-alt", "real-alt-plain", "wrapped"}
+
+// scopesReach: does scheme s learn the required scopes in this mode (only then can a scope-limited credential be judged)
+func scopesReach(mode uint8, s int) bool { return mode == modeRaw || s == 2 }
+
+// how the application wires API, context and handler (the exported entry points)
+const (
+	wEarlyAPIHandler   = iota // Register* -> middleware.NewContext -> Context.APIHandler          (the common path)
+	wLateRoutesHandler        // NewContext -> RegisterAuth/RegisterAuthorizer -> Context.RoutesHandler
+	wLateRapiDoc              // NewContext -> RegisterAuth/RegisterAuthorizer -> Context.APIHandlerRapiDoc
+	wEarlySwaggerUI           // Register* -> NewContext -> Context.APIHandlerSwaggerUI
+	wServe                    // Register* -> middleware.Serve (no Context in hand: handler level only, order not owned)
+	wTyped                    // RoutableAPI of the harness + generated-style typed handler; NewRoutableContext(nil router) -> RoutesHandler
+	wTypedRouter              // same; NewRoutableContextWithAnalyzedSpec with an explicit DefaultRouter -> APIHandler
+	wAuthorized               // common path with security.Authorized() as the authorizer (accepts everything)
+	nWiring
+)
+
+var wiringName = [nWiring]string{"register-newcontext-apihandler", "newcontext-register-routeshandler", "newcontext-register-rapidoc", "register-newcontext-swaggerui", "register-serve", "typed-routable-api", "typed-routable-api-explicit-router", "authorizer-security-authorized"}
 
 // refusal tags
 const (
@@ -119,6 +144,7 @@ type kase struct {
 	undef             uint8 // bit k: scheme k is absent from securityDefinitions (never registered)
 	out               [nS]uint8
 	az, rest          uint8
+	wiring            uint8
 }
 
 // Case is the replayable JSON form.
@@ -132,6 +158,7 @@ type Case struct {
 	Out        map[string]string `json:"outcome"`
 	Authorizer string            `json:"authorizer"`
 	Rest       string            `json:"rest,omitempty"`
+	Wiring     string            `json:"wiring,omitempty"` // empty = the common path
 }
 
 func (k kase) toCase() Case {
@@ -154,6 +181,9 @@ func (k kase) toCase() Case {
 	}
 	if k.level == lvlHandler {
 		c.Rest = restName[k.rest]
+	}
+	if k.wiring != wEarlyAPIHandler {
+		c.Wiring = wiringName[k.wiring]
 	}
 	return c
 }
@@ -181,6 +211,11 @@ func (c Case) toKase() (kase, error) {
 	}
 	if k.az, err = idx(azName[:], c.Authorizer, "authorizer"); err != nil {
 		return k, err
+	}
+	if c.Wiring != "" {
+		if k.wiring, err = idx(wiringName[:], c.Wiring, "wiring"); err != nil {
+			return k, err
+		}
 	}
 	if c.Rest != "" {
 		if k.rest, err = idx(restName[:], c.Rest, "rest"); err != nil {
